@@ -817,8 +817,9 @@ def partition_by_sum(array, parts):
     # we would never have ideal sums.
     indices = np.searchsorted(cumulative_sum, ideal_cumsum, side="right")
     # Check for repeated split points, which indicates that there is no way to
-    # split the array.
-    if np.unique(indices).size != indices.size:
+    # split the array. A split point at the start of the array would make an
+    # empty first part, which is the same problem.
+    if np.unique(indices).size != indices.size or indices[0] == 0:
         raise ValueError(
             "Could not find partition points to split the array into {} parts "
             "of equal sum.".format(parts)
